@@ -39,6 +39,20 @@ func runesOf(cps []int) string {
 	return string(rs)
 }
 
+// zeroPad: how many superfluous leading zeros an integer literal is written with ("010" is ten: the selector grammar
+// has decimal literals only)
+var zeroPad int
+
+func itoaPadded(n int) string {
+	if zeroPad == 0 {
+		return strconv.Itoa(n)
+	}
+	if n < 0 {
+		return "-" + strings.Repeat("0", zeroPad) + strconv.Itoa(-n)
+	}
+	return strings.Repeat("0", zeroPad) + strconv.Itoa(n)
+}
+
 func (s segRec) text() string {
 	var t string
 	switch s.T {
@@ -51,14 +65,14 @@ func (s segRec) text() string {
 			t = "." + runesOf(s.Name)
 		}
 	case "index":
-		t = "[" + strconv.Itoa(s.I) + "]"
+		t = "[" + itoaPadded(s.I) + "]"
 	case "slice":
 		lo, hi := "", ""
 		if s.HasLo {
-			lo = strconv.Itoa(s.Lo)
+			lo = itoaPadded(s.Lo)
 		}
 		if s.HasHi {
-			hi = strconv.Itoa(s.Hi)
+			hi = itoaPadded(s.Hi)
 		}
 		t = "[" + lo + ":" + hi + "]"
 	case "iter":
@@ -714,6 +728,14 @@ func init() {
 		}
 		for it := 0; it < n; it++ {
 			val := genVal(3)
+			if rng.Intn(6) == 0 {
+				// a list long enough for two-digit indexes
+				vs := []any{}
+				for i := 0; i < 9+rng.Intn(6); i++ {
+					vs = append(vs, []any{"int", float64(i)})
+				}
+				val = []any{"list", vs}
+			}
 			node, err := nodeOf(val)
 			if err != nil {
 				return err
@@ -765,7 +787,9 @@ func init() {
 				}
 				segs = append(segs, s)
 			}
+			zeroPad = []int{0, 0, 0, 1, 2}[rng.Intn(5)]
 			text := selText(segs)
+			zeroPad = 0
 			sel, err := parseReal(text)
 			if err != nil {
 				emit(map[string]any{"ev": "Select", "text": text, "sel": segs, "val": val, "res": []any{"parsefail", err.Error()}})
